@@ -483,3 +483,15 @@ MUTANTS += [
     movq %rax, (%rdi)
 """)]),
 ]
+MUTANTS += [
+ dict(name='seed-C09-masked-coordinate-compare', prop='C09', patch='seeded/C09-masked-coordinate-compare/patch.diff', expect='canonical'),
+ dict(name='seed-C11-zero-id-skips-cursor', prop='C11', patch='seeded/C11-zero-id-skips-cursor/patch.diff', expect='cursor|qualifykey|x'),
+ dict(name='seed-C08-drop-identity-pairs', prop='C08', patch='seeded/C08-drop-identity-pairs/patch.diff', expect='R-GUARD/G1'),
+ dict(name='seed-C16-keygen-hash-reduce', prop='C16', patch='seeded/C16-keygen-hash-reduces-master-scalar/patch.diff', expect='roles|keygen'),
+ dict(name='seed-C06-carry-from-add-return', prop='C06', patch='seeded/C06-wnaf-carry-from-add-return/patch.diff', expect='R-CARRY'),
+ dict(name='seed-C15-placeholder-byte', prop='C15', patch='seeded/C15-compressed-params-placeholder-byte/patch.diff', expect='R-FOOT'),
+ dict(name='seed-C01-retire-identity-pairs', prop='C01', patch='seeded/C01-retire-identity-pairs/patch.diff', expect='R-GUARD/G1'),
+ dict(name='seed-C05-mixed-add-guard-order', prop='C05', patch='seeded/C05-mixed-add-guard-order/patch.diff', expect='R-GUARD/G4'),
+ dict(name='seed-C18-gt-exp-pointer-table', prop='C18', patch='seeded/C18-gt-exp-pointer-table/patch.diff', expect='exponentiate_gt'),
+ dict(name='seed-C19-preparedpair-private-field', prop='C19', patch='seeded/C19-preparedpair-private-field/patch.diff', expect='R-LAYOUT'),
+]
